@@ -293,14 +293,41 @@ def documented(md):
     return rows
 
 
+EXAMPLE = re.compile(r'(?:^|,\s*)(.+?)\s+\((true|false|-?\d+(?:\.\d+)?|"[^"]*")\)')
+
+
+def documented_examples(md):
+    """the `expression (result)` pairs of the column "Examples (Result)" of the same table whose result is a literal, in file order"""
+    m = re.search(r"^###\s+Operators\b.*$", md, re.M)
+    if not m:
+        raise Lost("doc/17-language-reference.md: section `### Operators` not found")
+    rest = md[m.end():]
+    n = re.search(r"^#{1,3}\s", rest, re.M)
+    out = []
+    for line in (rest[:n.start()] if n else rest).splitlines():
+        if not DOC_ROW.match(line.strip()):
+            continue
+        cells = [c.strip() for c in line.replace("&#124;", "\x00").split("|")]
+        if len(cells) < 3:
+            continue
+        cell = cells[2].replace("\x00", "|")
+        for e in EXAMPLE.finditer(cell):
+            out.append((e.group(1).strip(), e.group(2)))
+    if len(out) < 25:
+        raise Lost("doc/17-language-reference.md: only %d `expression (result)` examples readable in the operator table" % len(out))
+    return out
+
+
 def extract(repo):
     yy = _read(repo, "lib/config/config_parser.yy")
     ll = _read(repo, "lib/config/config_lexer.ll")
     block = precedence_block(yy)
     lex = lexemes(ll)
     binary, unary, postfix = rules(yy)
-    doc = documented(_read(repo, "doc/17-language-reference.md"))
-    return {"block": block, "lexemes": lex, "binary": binary, "unary": unary, "postfix": postfix, "documented": doc}
+    md = _read(repo, "doc/17-language-reference.md")
+    doc = documented(md)
+    return {"block": block, "lexemes": lex, "binary": binary, "unary": unary, "postfix": postfix, "documented": doc,
+            "examples": documented_examples(md)}
 
 
 def _q(s):
